@@ -448,8 +448,23 @@ def inline_helpers(ast, path, node, depth=2, exprs=False, keep=()):
     bound to fresh locals.  Expression positions (with exprs=True): helpers whose body is one expression.  Helpers with early
     `return`, and recursive ones, are left alone.  Spans of the inlined statements are the helper's own."""
     fns = local_fns(ast, path)
+    self_type = {}
+    for f_ in ast.find_fns(path):
+        c_ = f_["container"].split("::")[0]
+        c_ = c_.split(" for ", 1)[1] if " for " in c_ else c_[5:] if c_.startswith("impl ") else ""
+        self_type.setdefault(f_["name"], c_.split("<")[0].strip())
     caller_names = _idents_in(node)
     counter = [0]
+
+    def type_path(e):
+        """`Type::f(..)` -> "Type" (None for `f(..)`, `Self::f(..)` and method calls)"""
+        if e.get("t") != "Call":
+            return None
+        f_ = e["func"]
+        while isinstance(f_, dict) and f_.get("t") == "Paren":
+            f_ = f_["expr"]
+        segs = f_["path"]["segs"] if f_.get("t") == "PathExpr" else []
+        return segs[0]["id"] if len(segs) == 2 and segs[0]["id"] != "Self" else None
 
     def prepare(e, want_value):
         """-> (stmts, tail expr or None) for call expression e, or None"""
@@ -459,6 +474,8 @@ def inline_helpers(ast, path, node, depth=2, exprs=False, keep=()):
         fn = fns[name]
         if fn is node or any(x is fn for x in ()):
             return None
+        if type_path(e) is not None and type_path(e) != self_type.get(name):
+            return None        # `Vec::new()` is not the file's own `new`
         pa = _call_args(e, fn)
         if pa is None:
             return None
@@ -470,7 +487,7 @@ def inline_helpers(ast, path, node, depth=2, exprs=False, keep=()):
             return None
         # recursion guard
         from common import walk
-        if any(_callee_name(n) == name for n in walk(body)):
+        if any(_callee_name(n) == name and (n.get("t") != "Call" or type_path(n) in (None, self_type.get(name))) for n in walk(body)):
             return None
         st = list(body["stmts"])
         tail = None
